@@ -561,18 +561,18 @@ pub trait Object {
                     .and_then(|i| i.parse::<usize>().ok())?;
                 match v {
                     Some(Value::Object(value)) => match value.get(k) {
-                        Some(Value::Array(a)) => v = a.iter().nth(i),
+                        Some(Value::Array(a)) => v = Some(a.iter().nth(i)?),
                         _ => return None,
                     },
                     Some(_) => return None,
                     None => match <Self as Object>::get(self, k) {
-                        Some(Value::Array(a)) => v = a.iter().nth(i),
+                        Some(Value::Array(a)) => v = Some(a.iter().nth(i)?),
                         _ => return None,
                     },
                 }
             } else {
                 match v {
-                    Some(Value::Object(value)) => v = value.get(k),
+                    Some(Value::Object(value)) => v = Some(value.get(k)?),
                     Some(_) => return None,
                     None => match <Self as Object>::get(self, k) {
                         Some(value) => v = Some(value),
@@ -611,18 +611,18 @@ pub trait Object: Send + Sync {
                 };
                 match v {
                     Some(Value::Object(value)) => match value.get(k) {
-                        Some(Value::Array(a)) => v = a.iter().nth(i),
+                        Some(Value::Array(a)) => v = Some(a.iter().nth(i)?),
                         _ => return None,
                     },
                     Some(_) => return None,
                     None => match <Self as Object>::get(self, k) {
-                        Some(Value::Array(a)) => v = a.iter().nth(i),
+                        Some(Value::Array(a)) => v = Some(a.iter().nth(i)?),
                         _ => return None,
                     },
                 }
             } else {
                 match v {
-                    Some(Value::Object(value)) => v = value.get(k),
+                    Some(Value::Object(value)) => v = Some(value.get(k)?),
                     Some(_) => return None,
                     None => match <Self as Object>::get(self, k) {
                         Some(value) => v = Some(value),
